@@ -138,3 +138,51 @@ class CallGraph:
             seen[f.path] = f
             work += self.callees(f)
         return list(seen.values())
+
+
+# --------------------------------------------------------------------------------------
+# helper-aware call sites: a call to a local function that itself performs X counts as a site of X
+
+class Summaries:
+    """`sites(fn, patterns, mode)`: blocks of fn whose call is one of `patterns`, or a call to a function of the
+    same crates that performs such a call on every path to its return (mode 'must') or on some path (mode 'may').
+    Lets path rules survive the extraction of a helper function (inlining bound: depth 3)."""
+
+    def __init__(self, crates, depth=3):
+        self.cg = CallGraph(crates)
+        self.depth = depth
+        self._memo = {}
+
+    def performs(self, g, patterns, mode, depth=None, stack=()):
+        depth = self.depth if depth is None else depth
+        key = (g.path, tuple(patterns), mode)
+        if key in self._memo:
+            return self._memo[key]
+        if depth < 0 or g.path in stack:
+            return False
+        blocks = self.sites(g, patterns, mode, depth - 1, stack + (g.path,))
+        if mode == 'may':
+            r = bool(blocks)
+        else:
+            rets = g.return_blocks()
+            r = bool(blocks) and bool(rets) and all(x not in g.reachable([0], removed_blocks=blocks) for x in rets)
+        self._memo[key] = r
+        return r
+
+    def sites(self, fn, patterns, mode='must', depth=None, stack=()):
+        depth = self.depth if depth is None else depth
+        out = []
+        for bb, t in fn.calls():
+            if call_matches(t, patterns):
+                out.append(bb)
+                continue
+            if depth < 0:
+                continue
+            for key in ('resolved', 'callee'):
+                p = t.get(key)
+                if p and norm(p) in self.cg.by_path:
+                    gs = [g for g in self.cg.by_path[norm(p)] if g.path != fn.path and g.kind != 'Closure']
+                    if gs and all(self.performs(g, patterns, mode, depth, stack + (fn.path,)) for g in gs):
+                        out.append(bb)
+                    break
+        return out
